@@ -23,7 +23,7 @@ func VerifC13_Reset() {
 	dirs := map[string]*dir{}
 	var mounts []mount.Mount
 	n := sym.Choose("nmounts", 4)
-	targets := []string{"w", "tmp", "data/out"}
+	targets := []string{"w", "work", "w/sub"} // names sharing a string prefix, and a nested one
 	for k := 0; k < n; k++ {
 		fst := []string{"tmpfs", "", "proc"}[sym.Choose("fstype", 3)]
 		mounts = append(mounts, mount.Mount{Source: "src", Target: targets[k], FsType: fst})
